@@ -8,7 +8,8 @@ Module C12.
   Record head := mkHead { h_ct : N; h_tab : ctab; h_recs : list (option bytes); h_file : bytes; h_offs : list N }.
 
   Inductive case :=
-  | Cut (h : head) (cuts : list (N * list (res (option bytes)) * list (res (option bytes))))
+  | Cut (h : head) (cuts : list (N * list (res (option bytes)) * list (res (option bytes))
+                                * list (list bool * list (res (option (option bytes))))))
   | Hdr (h : head) (alts : list (N * N * N * list (res (option bytes)) * res (option bytes)))
   | FileHdr (h : head) (fhs : list (N * N * bool * bool)).
 
@@ -21,10 +22,19 @@ Module C12.
     | _ => None
     end.
 
+  (* a read/skip program over the cut file and what it returned *)
+  Definition dMix (s : sx) :=
+    match s with
+    | L [prog; out] => do p' <- dList dBool prog; do o' <- dList dMixed out; Some (p', o')
+    | _ => None
+    end.
   Definition dCut (s : sx) :=
     match s with
     | L [n; seq; at_] =>
-        do n' <- dN n; do seq' <- dList dRecRes seq; do at' <- dList dRecRes at_; Some (n', seq', at')
+        do n' <- dN n; do seq' <- dList dRecRes seq; do at' <- dList dRecRes at_; Some (n', seq', at', [])
+    | L [n; seq; at_; mixes] =>
+        do n' <- dN n; do seq' <- dList dRecRes seq; do at' <- dList dRecRes at_; do m' <- dList dMix mixes;
+        Some (n', seq', at', m')
     | _ => None
     end.
   Definition dAlt (s : sx) :=
@@ -65,10 +75,12 @@ Module C12.
         let cd := codec_of (h_ct h) (h_tab h) in
         let fuel := (length (h_recs h) + 2)%nat in
         head_ok h &&
-        forallb (fun t => match t with (n, seq, at_) =>
+        forallb (fun t => match t with (n, seq, at_, mixes) =>
           let f := firstn (N.to_nat n) (h_file h) in
           seq_eqb (map res_norm (read_all fuel cd f 8)) seq
-          && list_eqb (res_eqb obytes_eqb) (map (read_at cd f) (h_offs h)) at_ end) cuts
+          && list_eqb (res_eqb obytes_eqb) (map (read_at cd f) (h_offs h)) at_
+          && forallb (fun m => list_eqb (res_eqb (opt_eqb obytes_eqb)) (map res_norm (read_mixed cd f 8 (fst m))) (snd m)) mixes
+          end) cuts
     | Hdr h alts =>
         let cd := codec_of (h_ct h) (h_tab h) in
         let fuel := (length (h_recs h) + 2)%nat in
